@@ -65,6 +65,7 @@ type Ctx struct {
 	Stats       map[string]int
 	Assumptions []string
 	Notes       []string
+	Extra       map[string]any // extra coverage keys (thorough tier: seeded replay)
 
 	prog    *ssa.Program
 	ssaPkgs map[string]*ssa.Package
@@ -453,6 +454,9 @@ func (c *Ctx) Finish(verifDir, explanation string, known []KnownFinding) int {
 		"known_findings":     len(knownLines),
 		"stats":              c.Stats,
 		"notes":              c.Notes,
+	}
+	for k, v := range c.Extra {
+		cov[k] = v
 	}
 	ev := map[string]any{
 		"property_id": c.Prop,
